@@ -8,10 +8,17 @@
   including formulas that read ranges."
 
   Model: Pycel/Model/Iter.lean (pass loop, tracker, cycle cells; a range read is the list of its cells inside
-  `Formula.reads`).  Lemmas: Pycel/Lemmas/Iter.lean, Pycel/Lemmas/IterSem.lean.
+  `Formula.reads`).  Lemmas: Pycel/Lemmas/Iter.lean, IterSem.lean, IterJoin.lean.
 -/
-import Pycel.Lemmas.IterSem
+import Pycel.Lemmas.IterJoin
 namespace Pycel.Iter
+
+/-- The constants the model takes from the LIVE source (Generated/IterConsts.lean, harness/tablegen/c06.py) are the
+    ones the theorems below are stated with: `rel = 0.00001`, `close_enough` compares with `<=`, the defaults of
+    `_evaluate_iterative` are 10000 passes and a tolerance of 0.01.  A changed default or operator breaks this. -/
+theorem C06_consts :
+    rel = 1 / 100000 ∧ Gen.closeEnoughInclusive = true ∧ defaultIterations = 10000 ∧ defaultTol = 1 / 100 := by
+  refine ⟨by decide +kernel, rfl, rfl, by decide +kernel⟩
 
 /-! ## "evaluate performs at most the requested number of passes" -/
 
@@ -55,6 +62,12 @@ theorem C06_bounded (wb : Workbook) (cfgIter argIter : Option Int) (cfgTol argTo
 theorem C06_bounded_arg (n : Int) (hn : n ≠ 0) (cfg : Option Int) : resolveIter (some n) cfg = n := by
   simp [resolveIter, hn]
 
+/-- with nothing requested and nothing configured the limit is the code's literal 10000 and the tolerance 0.01 -/
+theorem C06_default_limits : resolveIter none none = 10000 ∧ resolveTol none none = 1 / 100 := by
+  refine ⟨rfl, ?_⟩
+  show defaultTol = 1 / 100
+  exact C06_consts.2.2.2
+
 /-! ## "if it stops earlier, no cell changed by more than the tolerance in the last pass" -/
 
 theorem passWith_inv (wb : Workbook) (tol : Rat) (fuel : Nat) (pre targets : List Nat) (s : St) :
@@ -67,8 +80,9 @@ theorem passWith_inv (wb : Workbook) (tol : Rat) (fuel : Nat) (pre targets : Lis
   exact h2.2 (h1.2 h0)
 
 /-- The code's exact rule.  If `evaluate` returns before the limit, then every cell computed in the last pass
-    satisfies `close_enough(prev, tol)`: two numbers differ by LESS THAN (1 + 10⁻⁵)·tolerance (the factor is
-    `rel=0.00001` of `_CellBase.close_enough`, stated here, not hidden), and a non-number is unchanged. -/
+    satisfies `close_enough(prev, tol)`: two numbers differ by AT MOST (1 + 10⁻⁵)·tolerance — a difference equal to
+    the bound is accepted, the code compares with `<=` since /repo c457f68 — (the factor is `rel=0.00001` of
+    `_CellBase.close_enough`, stated here, not hidden), and a non-number is unchanged. -/
 theorem C06_stop_honest (wb : Workbook) (cfgIter argIter : Option Int) (cfgTol argTol : Option Rat) (fuel : Nat)
     (pre targets : List Nat) (s : St) (passes : Nat) (vals : List V) (s' : St)
     (hr : evaluateIter wb cfgIter argIter cfgTol argTol fuel pre targets s = (passes, vals, s'))
@@ -76,7 +90,7 @@ theorem C06_stop_honest (wb : Workbook) (cfgIter argIter : Option Int) (cfgTol a
     ∀ d, d ∈ s'.computed →
       closeEnough (resolveTol argTol cfgTol) (s'.cell d).val (s'.cell d).prev = true ∧
       (∀ x y, (s'.cell d).val = some x → (s'.cell d).prev = some y →
-        rabs (y - x) < (1 + 1 / 100000) * resolveTol argTol cfgTol) := by
+        rabs (y - x) ≤ (1 + 1 / 100000) * resolveTol argTol cfgTol) := by
   intro d hd
   have hb := C06_bounded_generic
     (passWith wb (resolveTol argTol cfgTol) fuel pre targets) (pass wb (resolveTol argTol cfgTol) fuel targets)
@@ -103,8 +117,10 @@ theorem C06_stop_honest (wb : Workbook) (cfgIter argIter : Option Int) (cfgTol a
     · exact h
   refine ⟨hce, fun x y hx hy => ?_⟩
   rw [hx, hy] at hce
-  have := of_decide_eq_true hce
-  simpa [rel] using this
+  have h1 : withinTol (rabs (y - x)) ((1 + rel) * resolveTol argTol cfgTol) = true := hce
+  rw [C06_consts.1] at h1
+  simp only [withinTol, C06_consts.2.1, if_true] at h1
+  exact of_decide_eq_true h1
 
 /-! ## "so for a contracting circular system the result lies within q/(1-q) x tolerance of the true fixed point" -/
 
@@ -165,15 +181,218 @@ theorem C06_pass_contracts (wb : Workbook) (tol : Rat) (fuel : Nat) (pre targets
     (∀ d, rabs (num ((passWith wb tol fuel pre targets s).2.cell d).val - xs d) ≤ E) ∧
     (∀ d, d ∈ (passWith wb tol fuel pre targets s).2.computed →
       rabs (num ((passWith wb tol fuel pre targets s).2.cell d).val - xs d) ≤ q * E) := by
-  have h0 : GH xs q E (clear s) := by
-    refine ⟨fun d => ⟨hstart d, fun hw => ?_⟩, fun d hd => ?_⟩
+  have hR : ReadClosed wb (fun _ => True) := fun _ _ _ _ _ _ => trivial
+  have h0 : GH (fun _ => True) xs q E (clear s) := by
+    refine ⟨fun d _ => ⟨hstart d, fun hw => ?_⟩, fun d hd _ => ?_⟩
     · have := hnowip d
       have hw' : (s.cell d).wip = true := hw
       rw [this] at hw'; cases hw'
     · simp [clear] at hd
-  have h1 := mapAccum_contr wb tol xs q E hq0 hq1 hE hlin fuel pre _ h0
-  have h2 := mapAccum_contr wb tol xs q E hq0 hq1 hE hlin fuel targets _ h1
-  exact ⟨fun d => (h2.1 d).1, h2.2⟩
+  have h1 := mapAccum_contr wb tol _ xs q E hq1 hE hlin hR fuel pre _ (fun _ _ => trivial) h0
+  have h2 := mapAccum_contr wb tol _ xs q E hq1 hE hlin hR fuel targets _ (fun _ _ => trivial) h1
+  exact ⟨fun d => (h2.1 d trivial).1, fun d hd => h2.2 d hd trivial⟩
+
+/-! ### the join: stop_honest + pass_contracts + fixed_point_bound -/
+
+theorem loop_inv_from (step : St → List V × St) (N : Int) (P : St → Prop) (hstep : ∀ s, P s → P (step s).2) :
+    ∀ k i s, P s → P (loop step N k i s).2.2 := by
+  intro k
+  induction k with
+  | zero => intro i s h; exact h
+  | succ k ih =>
+    intro i s h
+    unfold loop
+    split
+    · exact hstep s h
+    · exact ih (i + 1) (step s).2 (hstep s h)
+
+/-- a state between passes of a linear system: nothing on the stack, the inputs are the fixed point's inputs -/
+def Calm (wb : Workbook) (xs : Nat → Rat) (s : St) : Prop :=
+  (∀ d, (s.cell d).wip = false) ∧ (∀ d, wb d = none → xs d = num (s.cell d).val)
+
+theorem passWith_calm (wb : Workbook) (tol : Rat) (fuel : Nat) (pre targets : List Nat) (xs : Nat → Rat)
+    (s : St) (hs : Calm wb xs s) : Calm wb xs (passWith wb tol fuel pre targets s).2 := by
+  unfold passWith
+  have e1 := (mapAccum_good tol _ (evalCell_good wb tol fuel) pre (clear s)).1
+  have e2 := (mapAccum_good tol _ (evalCell_good wb tol fuel) targets
+    (mapAccum (evalCell wb tol fuel) pre (clear s)).2).1
+  have p0 : PV wb (clear s) (clear s) := ⟨fun d hd => by simp [clear] at hd, fun _ _ => rfl, fun _ _ => rfl⟩
+  have p1 := mapAccum_pv wb (clear s) _ (evalCell_pv wb tol (clear s) fuel) pre _ p0
+  have p2 := mapAccum_pv wb (clear s) _ (evalCell_pv wb tol (clear s) fuel) targets _ p1
+  refine ⟨fun d => ?_, fun d hd => ?_⟩
+  · rw [e2.wip d, e1.wip d]; exact hs.1 d
+  · rw [p2.inp d hd]; exact hs.2 d hd
+
+/-- one pass that scheduled nothing: every computed cell is within q/(1−q)·(1+rel)·tol of the fixed point -/
+theorem pass_result_bound (wb : Workbook) (tol : Rat) (fuel : Nat) (pre targets : List Nat)
+    (xs : Nat → Rat) (q : Rat) (hq0 : 0 ≤ q) (hq1 : q < 1) (htol : 0 ≤ tol) (hlin : LinContr wb xs q)
+    (s0 : St) (hs0 : Calm wb xs s0)
+    (htodo : (passWith wb tol fuel pre targets s0).2.todo = [])
+    (hoof : (passWith wb tol fuel pre targets s0).2.oof = false) :
+    ∀ d, d ∈ (passWith wb tol fuel pre targets s0).2.computed →
+      rabs (num ((passWith wb tol fuel pre targets s0).2.cell d).val - xs d)
+        ≤ q / (1 - q) * ((1 + 1 / 100000) * tol) := by
+  have hinv := passWith_inv wb tol fuel pre targets s0
+  unfold passWith at htodo hoof hinv ⊢
+  have e1 := (mapAccum_good tol _ (evalCell_good wb tol fuel) pre (clear s0)).1
+  have c1 := mapAccum_clo wb tol fuel (evalCell_clo wb tol fuel) pre (clear s0)
+  have p0 : PV wb (clear s0) (clear s0) := ⟨fun d hd => by simp [clear] at hd, fun _ _ => rfl, fun _ _ => rfl⟩
+  have p1 := mapAccum_pv wb (clear s0) _ (evalCell_pv wb tol (clear s0) fuel) pre _ p0
+  generalize hsm : (mapAccum (evalCell wb tol fuel) pre (clear s0)).2 = sm at *
+  have e2 := (mapAccum_good tol _ (evalCell_good wb tol fuel) targets sm).1
+  have c2 := mapAccum_clo wb tol fuel (evalCell_clo wb tol fuel) targets sm
+  have p2 := mapAccum_pv wb (clear s0) _ (evalCell_pv wb tol (clear s0) fuel) targets _ p1
+  generalize hs' : (mapAccum (evalCell wb tol fuel) targets sm).2 = s' at *
+  have hoofm : sm.oof = false := by
+    cases hm : sm.oof with
+    | false => rfl
+    | true => rw [c2.mono hm] at hoof; cases hoof
+  have hwip' : ∀ d, (s'.cell d).wip = false := fun d => by rw [e2.wip d, e1.wip d]; exact hs0.1 d
+  have hclo : Clo wb s' := c2.clo (c1.clo (fun _ d hd => by simp [clear] at hd))
+  -- the set the pass lives in
+  let R : Nat → Prop := fun d => d ∈ s'.computed ∨ wb d = none
+  have hR : ReadClosed wb R := by
+    intro c f hc hf j hj
+    rcases hc with hc | hc
+    · rcases hclo hoof c hc f hf j hj with p | p | p
+      · exact Or.inl p
+      · exact Or.inr p
+      · rw [hwip' j] at p; cases p
+    · rw [hf] at hc; cases hc
+  have hpre : ∀ c, c ∈ pre → R c := by
+    intro c hc
+    rcases c1.post hoofm c hc with p | p | p
+    · exact Or.inl (e2.comp c p)
+    · exact Or.inr p
+    · have : ((clear s0).cell c).wip = false := hs0.1 c
+      rw [this] at p; cases p
+  have htg : ∀ c, c ∈ targets → R c := by
+    intro c hc
+    rcases c2.post hoof c hc with p | p | p
+    · exact Or.inl p
+    · exact Or.inr p
+    · rw [e1.wip c] at p
+      have : ((clear s0).cell c).wip = false := hs0.1 c
+      rw [this] at p; cases p
+  let x : Nat → Rat := fun d => num (s0.cell d).val
+  let x' : Nat → Rat := fun d => num (s'.cell d).val
+  have hE := supErr_nonneg s'.computed x xs
+  have hq1' : q ≤ 1 := by grind
+  have g0 : GH R xs q (supErr s'.computed x xs) (clear s0) := by
+    refine ⟨fun d hd => ⟨?_, fun hw => ?_⟩, fun d hd _ => by simp [clear] at hd⟩
+    · rcases hd with hd | hd
+      · exact le_supErr s'.computed x xs d hd
+      · have : num ((clear s0).cell d).val - xs d = 0 := by
+          have := hs0.2 d hd
+          show num (s0.cell d).val - xs d = 0
+          grind
+        rw [this]; simpa [rabs] using hE
+    · have : ((clear s0).cell d).wip = false := hs0.1 d
+      rw [this] at hw; cases hw
+  have g1 := mapAccum_contr wb tol R xs q _ hq1' hE hlin hR fuel pre _ hpre g0
+  rw [hsm] at g1
+  have g2 := mapAccum_contr wb tol R xs q _ hq1' hE hlin hR fuel targets _ htg g1
+  rw [hs'] at g2
+  have hrel0 : (0 : Rat) ≤ (1 + 1 / 100000) * tol := by
+    have := Rat.mul_le_mul_of_nonneg_left (show (0 : Rat) ≤ 1 + 1 / 100000 by decide +kernel) htol
+    grind
+  have hmove : ∀ d, d ∈ s'.computed → rabs (x' d - x d) ≤ (1 + 1 / 100000) * tol := by
+    intro d hd
+    have hce : closeEnough tol (s'.cell d).val (s'.cell d).prev = true := by
+      rcases (hinv d hd).2 with h | h
+      · rw [htodo] at h; cases h
+      · exact h
+    have hprev : (s'.cell d).prev = (s0.cell d).val := p2.prev d hd
+    rw [hprev] at hce
+    show rabs (num (s'.cell d).val - num (s0.cell d).val) ≤ _
+    cases hv : (s'.cell d).val with
+    | none =>
+      cases hp : (s0.cell d).val with
+      | none =>
+        have h0 : rabs (num (none : V) - num (none : V)) = 0 := by decide +kernel
+        rw [h0]; exact hrel0
+      | some b => rw [hv, hp] at hce; simp [closeEnough] at hce
+    | some a =>
+      cases hp : (s0.cell d).val with
+      | none => rw [hv, hp] at hce; simp [closeEnough] at hce
+      | some b =>
+        rw [hv, hp] at hce
+        have h1 : withinTol (rabs (b - a)) ((1 + rel) * tol) = true := hce
+        rw [C06_consts.1] at h1
+        simp only [withinTol, C06_consts.2.1, if_true] at h1
+        have := of_decide_eq_true h1
+        rw [rabs_sub_comm] at this
+        simpa [num] using this
+  exact C06_fixed_point_bound_cells s'.computed x x' xs q _ hq0 hq1 hrel0
+    (fun d hd => g2.2 d hd (Or.inl hd)) hmove
+
+/-- THE JOIN.  `evaluate` on a linear system x = A x + b with ‖A‖∞ ≤ q < 1 (any number of cells, any topology incl.
+    cycles through ranges), started between operations with the inputs the fixed point `xs` was computed for and a
+    tolerance ≥ 0: if it stops before the iteration limit, every cell computed in the last pass — in particular
+    every formula target returned — is within  q/(1−q) · (1 + 10⁻⁵) · tolerance  of the fixed point.
+
+    `_partial`: stated under the extra hypothesis `s'.oof = false` (the depth-first evaluation never ran out of the
+    model's recursion fuel).  `C06_result_bound` below discharges it from `number of formula cells ≤ fuel`. -/
+theorem C06_result_bound_partial (wb : Workbook) (cfgIter argIter : Option Int) (cfgTol argTol : Option Rat)
+    (fuel : Nat) (pre targets : List Nat) (xs : Nat → Rat) (q : Rat) (hq0 : 0 ≤ q) (hq1 : q < 1)
+    (hlin : LinContr wb xs q) (htol : 0 ≤ resolveTol argTol cfgTol)
+    (s : St) (hs : Calm wb xs s) (passes : Nat) (vals : List V) (s' : St)
+    (hr : evaluateIter wb cfgIter argIter cfgTol argTol fuel pre targets s = (passes, vals, s'))
+    (hearly : (passes : Int) < resolveIter argIter cfgIter)
+    (hfuel : s'.oof = false) :
+    ∀ d, d ∈ s'.computed →
+      rabs (num (s'.cell d).val - xs d) ≤ q / (1 - q) * ((1 + 1 / 100000) * resolveTol argTol cfgTol) := by
+  -- the final state is the result of one pass from a calm state
+  let tol := resolveTol argTol cfgTol
+  let P : St → Prop := fun t => Calm wb xs t ∧ ∃ t0 pre', Calm wb xs t0 ∧ t = (passWith wb tol fuel pre' targets t0).2
+  have hstep : ∀ pre' t, Calm wb xs t → P (passWith wb tol fuel pre' targets t).2 :=
+    fun pre' t ht => ⟨passWith_calm wb tol fuel pre' targets xs t ht, t, pre', ht, rfl⟩
+  have hP : P (loopFrom (passWith wb tol fuel pre targets) (pass wb tol fuel targets)
+      (resolveIter argIter cfgIter) s).2.2 := by
+    unfold loopFrom
+    split
+    · exact hstep pre s hs
+    · exact loop_inv_from _ _ P (fun t ht => hstep [] t ht.1) _ _ _ (hstep pre s hs)
+  have hb := C06_bounded_generic (passWith wb tol fuel pre targets) (pass wb tol fuel targets)
+    (resolveIter argIter cfgIter) s
+  have hr' : loopFrom (passWith wb tol fuel pre targets) (pass wb tol fuel targets)
+      (resolveIter argIter cfgIter) s = (passes, vals, s') := hr
+  rw [hr'] at hP hb
+  obtain ⟨_, t0, pre', ht0, hs'⟩ := hP
+  have htodo : s'.todo = [] := by
+    have hdone := hb.2.2
+    simp only [done, Bool.or_eq_true, decide_eq_true_eq] at hdone
+    rcases hdone with h | h
+    · omega
+    · exact List.isEmpty_iff.mp h
+  subst hs'
+  exact pass_result_bound wb tol fuel pre' targets xs q hq0 hq1 htol hlin t0 ht0 htodo hfuel
+
+/-- THE JOIN, full strength (no out-of-fuel hypothesis): `U` lists the formula cells of the workbook and the fuel
+    is at least their number (the driver uses cells + 1).  "if it stops earlier … for a contracting circular system
+    the result lies within q/(1-q) x tolerance of the true fixed point" — with the code's factor (1 + rel). -/
+theorem C06_result_bound (wb : Workbook) (cfgIter argIter : Option Int) (cfgTol argTol : Option Rat)
+    (fuel : Nat) (pre targets : List Nat) (xs : Nat → Rat) (q : Rat) (hq0 : 0 ≤ q) (hq1 : q < 1)
+    (hlin : LinContr wb xs q) (htol : 0 ≤ resolveTol argTol cfgTol)
+    (U : List Nat) (hU : ∀ c f, wb c = some f → c ∈ U) (hlen : U.length ≤ fuel)
+    (s : St) (hs : Calm wb xs s) (hoof : s.oof = false) (passes : Nat) (vals : List V) (s' : St)
+    (hr : evaluateIter wb cfgIter argIter cfgTol argTol fuel pre targets s = (passes, vals, s'))
+    (hearly : (passes : Int) < resolveIter argIter cfgIter) :
+    ∀ d, d ∈ s'.computed →
+      rabs (num (s'.cell d).val - xs d) ≤ q / (1 - q) * ((1 + 1 / 100000) * resolveTol argTol cfgTol) := by
+  have hfuel : (loopFrom (passWith wb (resolveTol argTol cfgTol) fuel pre targets)
+      (pass wb (resolveTol argTol cfgTol) fuel targets) (resolveIter argIter cfgIter) s).2.2.oof = false := by
+    unfold loopFrom
+    split
+    · exact passWith_fuel wb _ U hU fuel hlen pre targets s hoof
+    · exact loop_inv_from _ _ (fun t => t.oof = false)
+        (fun t ht => passWith_fuel wb _ U hU fuel hlen [] targets t ht) _ _ _
+        (passWith_fuel wb _ U hU fuel hlen pre targets s hoof)
+  have hr' : loopFrom (passWith wb (resolveTol argTol cfgTol) fuel pre targets)
+      (pass wb (resolveTol argTol cfgTol) fuel targets) (resolveIter argIter cfgIter) s = (passes, vals, s') := hr
+  rw [hr'] at hfuel
+  exact C06_result_bound_partial wb cfgIter argIter cfgTol argTol fuel pre targets xs q hq0 hq1 hlin htol s hs
+    passes vals s' hr hearly hfuel
 
 /-! ## "On a workbook without circular references it returns exactly what non-iterative evaluation returns, on first
        use and after any set_value history, including formulas that read ranges." -/
@@ -295,6 +514,30 @@ example : LinContr wbDemo (fun c => if c ≤ 1 then 2 else 0) 1 := by
 /-- first `evaluate(A1)` on the empty-valued workbook: 9 passes, 511/256, stops before the limit of 10000 -/
 example : (let r := evaluateIter wbDemo none none none none 3 [] [0] (initState [])
            (r.1, r.2.1)) = (9, [some (511/256 : Rat)]) := by decide +kernel
+
+/-- … and that run never ran out of fuel (the extra hypothesis of `C06_result_bound_partial` is satisfiable) -/
+example : (evaluateIter wbDemo none none none none 3 [] [0] (initState [])).2.2.oof = false := by decide +kernel
+
+/-- the hypotheses of `C06_result_bound` hold for that run: calm start, formula cells ⊆ [0, 1], fuel 3 ≥ 2 -/
+example : Calm wbDemo (fun c => if c ≤ 1 then 2 else 0) (initState []) ∧
+    (∀ c f, wbDemo c = some f → c ∈ [0, 1]) := by
+  refine ⟨⟨fun _ => rfl, fun d hd => ?_⟩, fun c f hf => ?_⟩
+  · have hnot : ¬ d ≤ 1 := by
+      intro h
+      unfold wbDemo at hd
+      split at hd
+      · cases hd
+      · split at hd
+        · cases hd
+        · omega
+    show (if d ≤ 1 then (2 : Rat) else 0) = num ((initState []).cell d).val
+    rw [if_neg hnot]; rfl
+  · unfold wbDemo at hf
+    split at hf
+    · rename_i h; simp [h]
+    · split at hf
+      · rename_i h; simp [h]
+      · cases hf
 
 /-- an acyclic workbook with a range: C = A + 1 (cell 2), D = SUM(A:C) (cell 3), inputs A, B -/
 def wbAcyc : Workbook := fun c =>
